@@ -338,10 +338,10 @@ class LDAPSession:
     ) -> None:
         pass
 
-    def _send(
+    def _validate_send(
         self,
         msg: LDAPMessage,
-    ) -> int:
+    ) -> None:
         if self.state == SessionState.CLOSED:
             raise LDAPError("LDAP session is CLOSED, cannot send any new messages.")
 
@@ -356,6 +356,12 @@ class LDAPSession:
         elif self.state == SessionState.BEFORE_OPEN:
             self.state = SessionState.OPENED
 
+    def _send(
+        self,
+        msg: LDAPMessage,
+    ) -> int:
+        # Nothing is added to the outgoing buffer if the message is refused.
+        self._validate_send(msg)
         self._outgoing_buffer.extend(msg.pack(self._packing_options))
 
         return msg.message_id
@@ -938,11 +944,16 @@ class LDAPServer(LDAPSession):
     ) -> int:
         msg_id = super()._send(msg)
 
-        if not isinstance(msg, UnbindRequest):
-            if msg_id in self._outstanding_requests:
-                if not isinstance(msg, (SearchResultEntry, SearchResultReference)):
-                    self._outstanding_requests.remove(msg_id)
-            else:
-                raise LDAPError(f"Message {msg} is a response to an unknown request")
+        if not isinstance(msg, (UnbindRequest, SearchResultEntry, SearchResultReference)):
+            self._outstanding_requests.remove(msg_id)
 
         return msg_id
+
+    def _validate_send(
+        self,
+        msg: LDAPMessage,
+    ) -> None:
+        super()._validate_send(msg)
+
+        if not isinstance(msg, UnbindRequest) and msg.message_id not in self._outstanding_requests:
+            raise LDAPError(f"Message {msg} is a response to an unknown request")
